@@ -149,6 +149,48 @@ def run_c17(tier, seed, mg, log, build):
     log['runs'].append({'flavour': 'rustc-probes', 'programs': len(results), 'wall_s': round(time.time() - t0, 1)})
 
 
+# ------------------------------------------------------------------ C05
+def run_c05_probes(tier, seed, mg, log, build):
+    """One small program per shape of the derive grammar: must compile, round-trip in both modes (Debug renderings equal)."""
+    depdir = os.path.join(TARGET, 'debug', 'debug', 'deps')
+    pdir = os.path.join(TARGET, 'probes', 'c05')
+    os.makedirs(pdir, exist_ok=True)
+    t0 = time.time()
+
+    def one(p):
+        name, src = p
+        sp = os.path.join(pdir, name + '.rs')
+        open(sp, 'w').write(src)
+        ok, codes, first = compile_probe(sp, os.path.join(pdir, name), depdir)
+        res = {'name': name, 'compiled': ok, 'codes': codes, 'msg': first}
+        if ok:
+            rc, out, err = run_bin(os.path.join(pdir, name))
+            res.update(rc=rc, out=out, err=err[-300:])
+            try:
+                os.remove(os.path.join(pdir, name))
+            except OSError:
+                pass
+        return res
+    with ThreadPoolExecutor(NCPU) as ex:
+        results = list(ex.map(one, probes.c05_probes()))
+    for r in results:
+        count(mg, 'evaluations')
+        count(mg, 'grammar_probes')
+        mg.distinct += 1
+        name = r['name']
+        if r['compiled'] is None:
+            mg.inconclusive.append('probe %s: %s' % (name, r['msg']))
+        elif not r['compiled']:
+            viol(mg, 'C05', 'C05/grammar-probe/%s' % name, name, 'a definition of this shape does not compile: %s %s' % (r['codes'][:3], r['msg']))
+        elif r.get('rc') != 0 or 'PROBE-OK' not in r.get('out', ''):
+            viol(mg, 'C05', 'C05/grammar-probe-run/%s' % name, name, 'compiled but does not round-trip: rc=%s %s %s' % (r.get('rc'), r.get('out', '')[:300], r.get('err', '')))
+        else:
+            count(mg, 'grammar_probes_ok')
+            mg.sets.setdefault('grammar_shapes_ok', set()).add(name)
+    mg.per_flavour['rustc-probes'] = {'shards': 1, 'done': 1, 'evaluations': len(results), 'sanitizer_reports': 0}
+    log['runs'].append({'flavour': 'rustc-probes', 'programs': len(results), 'wall_s': round(time.time() - t0, 1)})
+
+
 # ------------------------------------------------------------------ C09
 def run_c09_probes(tier, seed, mg, log, build):
     b = build('debug', log)
@@ -358,7 +400,7 @@ def judge_section(prop, mg, s):
 
 
 # ------------------------------------------------------------------ main
-def run(prop, tier, seed, mg, log, build, run_shards, merge, rundir, extra):
+def run(prop, tier, seed, mg, log, build, run_shards, merge, rundir, extra, classify_build_failure=None):
     import props as P
     spec = P.PROPS[prop]
     timeout = 1500 if tier == 'quick' else 5400
@@ -374,7 +416,13 @@ def run(prop, tier, seed, mg, log, build, run_shards, merge, rundir, extra):
     for fl in flavours:
         b = build(fl, log)
         if isinstance(b, tuple):
-            mg.inconclusive.append('harness build failed in flavour %s (see %s)' % (fl, b[1]))
+            who, msg = classify_build_failure(b[1]) if classify_build_failure else ('harness', '')
+            if who == 'repo' and prop == 'C05':
+                mg.add_violation({'prop': 'C05', 'sig': 'C05/does-not-compile', 'root': 'universe A', 'val': None,
+                                  'detail': 'a definition of the supported grammar, or the assertion that its derived ε-copy / serialisation type is the documented one, no longer compiles: ' + msg,
+                                  'flavour': 'build'})
+            else:
+                mg.inconclusive.append('harness build failed in flavour %s (see %s): %s' % (fl, b[1], msg[:300]))
             continue
         if fl == 'debug':
             binary = b
@@ -382,6 +430,22 @@ def run(prop, tier, seed, mg, log, build, run_shards, merge, rundir, extra):
         res = run_shards(monitor, fl, b, tier, seed, NCPU, extra, os.path.join(rundir, fl), timeout, log)
         merge(prop, fl, res, mg)
         mg.sets.setdefault('feature_sets', set()).add('no-mmap' if fl == 'nommap' else 'default')
+    if prop == 'C05':
+        # universe B: fresh definitions for this seed, in a binary of its own
+        for fl in (['debug'] if tier == 'quick' else ['debug', 'fastrel']):
+            b = build(fl, log, package='epvb')
+            if isinstance(b, tuple):
+                who, msg = classify_build_failure(b[1]) if classify_build_failure else ('harness', '')
+                if who == 'repo':
+                    mg.add_violation({'prop': 'C05', 'sig': 'C05/universe-B-does-not-compile', 'root': 'universe B seed %d' % seed, 'val': None,
+                                      'detail': 'a generated definition of the supported grammar (or its ε-copy type assertion) does not compile: ' + msg,
+                                      'flavour': 'build'})
+                else:
+                    mg.inconclusive.append('epvb build failed in flavour %s (see %s)' % (fl, b[1]))
+                continue
+            res = run_shards('C05', fl + '-universeB', b, tier, seed, NCPU, extra, os.path.join(rundir, fl + '-B'), timeout, log)
+            merge(prop, fl + '-universeB', res, mg)
+        run_c05_probes(tier, seed, mg, log, build)
     if prop in ('C08', 'C09') and binary:
         run_strace(prop, seed, mg, log, binary)
     if prop == 'C09':
